@@ -1,7 +1,7 @@
 SPECIFICATION Spec
 CONSTANTS
   Pats = {"name:b.lua", "name:v.lua", "dir:vendor", "dir:deep", "ext:luau", "ext:lua", "anch:a.lua", "anch:b.lua", "!name:v.lua", "!name:b.lua", "!ext:lua"}
-  ArgSets = {"dot", "src", "vendor", "a", "v", "w", "notes", "hidden", "dot+a", "a+a", "src+b", "src+vendor", "src+notes", "notes+src", "dot+notes", "notes+dot", "lib+src"}
+  ArgSets = {"dot", "src", "vendor", "a", "v", "w", "notes", "hidden", "dot+a", "a+a", "src+b", "src+vendor", "src+notes", "notes+src", "dot+notes", "notes+dot", "lib+src", "a+upa", "dot+upa", "srca+upa", "upa+srca"}
   MaxPats = 2
   IgNames = {"stylua", "ignore"}
   GlobSets = {"none", "lua", "luau", "txt", "lua-b", "-b+lua", "-vendor", "lua-vendor", "under-src"}
